@@ -63,7 +63,7 @@ def drive(binary, seed, n, events, out, only=None):
         args += ["-only", only]
     rc, so, se = vlib.run_driver(binary, args, timeout=1800)
     if rc != 0:
-        if rc is not None and "panic:" in (se or ""):
+        if rc is not None and vlib.code_panic(se):
             return dict(crash=(se or "")[-6000:])
         # the trace is flushed per event: what was recorded up to the failure is still validated
         n = len(vlib.read_trace(out)) if os.path.exists(out) else 0
@@ -172,7 +172,7 @@ def run(prop, tier, seed, replay=None):
             out = os.path.join(wd, "trace-exh.ndjson")
             rc, so, se = vlib.run_driver(binary, ["-exh", events[0], "-exhmax", events[1], "-seed", n, "-out", out], timeout=3000)
             if rc != 0:
-                if rc is not None and "panic:" in (se or ""):
+                if rc is not None and vlib.code_panic(se):
                     return "exh", out, dict(crash=(se or "")[-6000:]), None, events
                 raise vlib.Inconclusive("exhaustive routing-table exploration failed (rc=%s): %s" % (rc, (se or "")[-3000:]))
             st = json.loads(so.strip().splitlines()[-1])
